@@ -518,3 +518,45 @@ def frontier_reach_form(ctx, pid):
                     breaks='subtrees handed to worker tasks are traversed with wrong reach probabilities: the multi-threaded result differs from the single-threaded one')
     if n == 0:
         ctx.anchor_lost(rule, 'thread_threshold: queued children')
+
+
+ACC_FIELDS = ('cum_regret', 'cum_strat')
+ACC_CALLS = ('update_cum_strat', 'fetch_add', 'fetch_sub')
+
+
+def frontier_search_pure(ctx, pid, which):
+    """the frontier search (thread_threshold and everything it reaches in the instance graph) only *finds* the tasks: it
+    follows / samples the path but never writes an infoset's accumulators — every node above the frontier is visited
+    again by the cached root traversal, which does the updates, so an update here is an update done twice"""
+    import e9
+    lib = ctx.lib
+    rule = '%s.frontier-search-pure' % pid
+    for w in which:
+        f = ctx.fn('lib', 'solve::%s::thread_threshold' % w, rule)
+        if f is None:
+            continue
+        reached, ok = e9.region_local_fns(lib, f)
+        if not ok or f.name not in reached:
+            ctx.anchor_lost(rule, 'solve::%s::thread_threshold in the instance graph' % w)
+            continue
+        bad = []
+        for name in sorted(reached):
+            g = lib.fns[name]
+            ctx.touch(g)
+            for bi, st, pl, rhs in q.stores(g):
+                flds = [x[2] for x in facts.walk(pl) if x[0] == 'field']
+                if any(a in flds for a in ACC_FIELDS):
+                    bad.append('%s writes .%s (%s)' % (q.top(name).split('::')[-1] if '::' in name else name, [a for a in ACC_FIELDS if a in flds][0], g.where(bi)))
+            for bi, t, p in g.calls():
+                if short(p) in ACC_CALLS and (short(p) == 'update_cum_strat' or any(a in facts.show(g.call_expr(t, bi)) for a in ACC_FIELDS)):
+                    bad.append('%s calls %s (%s)' % (name.split('::')[-1], short(p), g.where(bi)))
+        # reached nodes without a body here (spliced helpers keep their graph node): by name
+        g_ = lib.graph
+        s_ = [i for i, n in enumerate(g_['nodes']) if e1.node_path(n) == f.name]
+        for s0 in s_:
+            for x in lib.reach_from(s0):
+                pth = e1.node_path(g_['nodes'][x])
+                if short(pth) == 'update_cum_strat' and not any('update_cum_strat' in b_ for b_ in bad):
+                    bad.append('reaches %s' % pth[-60:])
+        ctx.verdict(not bad, rule, '%s:%s' % (rule, w), 'the search for the task frontier reaches no code that writes an infoset\'s cumulative regret / cumulative strategy', f.where(0),
+                    '%d local functions reached; writers: %s' % (len(reached), sorted(set(bad))[:4]), breaks='infosets above the frontier are updated by the search and again by the cached root traversal: their average strategy is accumulated twice in multi-threaded runs only')
